@@ -144,6 +144,17 @@ def cached_functions(db):
                 v = n.value
                 if (isinstance(v, ast.Name) and v.id in stored) or (isinstance(v, ast.Subscript) and ast.unparse(v.value) in memo_texts):
                     out[fi.name] = fi
+    # a function that returns the result of a hand-out function unchanged hands the same storage out
+    changed = True
+    while changed:
+        changed = False
+        for fi in db.all_functions():
+            if fi.name in out:
+                continue
+            rets = [n for n in walk_no_nested(fi.node) if isinstance(n, ast.Return) and n.value is not None]
+            if rets and any(isinstance(r.value, ast.Call) and (r.value.func.attr if isinstance(r.value.func, ast.Attribute) else getattr(r.value.func, 'id', '')) in out for r in rets):
+                out[fi.name] = fi
+                changed = True
     return out
 
 
@@ -319,7 +330,7 @@ def input_mutations(fi, skip_params=('self', 'cls')):
     return [(st, nm) for st, nm, _ in shared_entry_mutations(fi, init={p: p for p in params}, tables=False)]
 
 
-def shared_entry_mutations(fi, sites=None, init=None, tables=True, call_sources=None, attr_sources=None):
+def shared_entry_mutations(fi, sites=None, init=None, tables=True, call_sources=None, attr_sources=None, attr_tables=None):
     """In-place writes through a name that may alias an entry of a table shared between loop iterations.
 
     Inside a `for` loop, `v = T[i][j]` (T bound outside the loop, basic/int/key indexing: the same object or a view)
@@ -357,6 +368,8 @@ def shared_entry_mutations(fi, sites=None, init=None, tables=True, call_sources=
                         sites.add((v.lineno, ast.unparse(v)))
                     return ast.unparse(v)
             return None
+        if isinstance(v, ast.Subscript) and attr_tables and ast.unparse(v.value) in attr_tables:
+            return ast.unparse(v)
         if isinstance(v, ast.Subscript):
             r = value_alias(v.value, st, ctx)
             return r if r and _basic_index(v.slice) else None
@@ -607,6 +620,12 @@ def sibling_alias_mutations(fi):
                             alias[o].discard(t.id)
                     for s_ in alias[t.id]:
                         alias.setdefault(s_, set()).add(t.id)
+                elif isinstance(t, (ast.Tuple, ast.List)) and isinstance(st.value, (ast.GeneratorExp, ast.ListComp)) and isinstance(st.value.elt, ast.Subscript) \
+                        and isinstance(st.value.elt.value, ast.Name):
+                    # a, b, c = (T[k] for k in keys): two keys may be equal, then two targets are one object
+                    names = [e.id for e in t.elts if isinstance(e, ast.Name)]
+                    for e in names:
+                        alias[e] = set(names) - {e}
                 elif isinstance(t, (ast.Tuple, ast.List)) and isinstance(st.value, (ast.Tuple, ast.List)) and len(t.elts) == len(st.value.elts):
                     for e, v in zip(t.elts, st.value.elts):
                         if isinstance(e, ast.Name):
@@ -629,4 +648,128 @@ def sibling_alias_mutations(fi):
                 for o in alias.get(w, ()):
                     if any(l.id == o and (l.lineno, l.col_offset) > (st.lineno, st.col_offset) for l in loads):
                         out.append((st, w, o))
+    return out
+
+
+def derived_attr_staleness(ci):
+    """Attributes computed once in __init__ from a constructor argument that is ALSO kept as a plain public attribute:
+    a method that combines the live attribute with the derived one sees a stale derivation as soon as the attribute is
+    re-assigned after construction (annealing a temperature, changing a bit depth).  Returns [(method fi, derived attr,
+    source attr, node)].  Properties with a setter are exempt (the setter can refresh the derivation)."""
+    init = ci.methods.get('__init__')
+    if init is None:
+        return []
+    params = set(init.params[1:])
+    stored = {}          # attr -> param stored verbatim
+    derived = {}         # attr -> set of params it was computed from
+    cond_params = []
+
+    def visit(stmts, guards):
+        for st in stmts:
+            if isinstance(st, ast.Assign):
+                for t in st.targets:
+                    if isinstance(t, ast.Attribute) and isinstance(t.value, ast.Name) and t.value.id == 'self':
+                        used = {n.id for n in ast.walk(st.value) if isinstance(n, ast.Name)} & params
+                        if isinstance(st.value, ast.Name) and st.value.id in params and not guards:
+                            stored[t.attr] = st.value.id
+                        elif used | guards:
+                            derived.setdefault(t.attr, set()).update(used | guards)
+            elif isinstance(st, ast.If):
+                g = {n.id for n in ast.walk(st.test) if isinstance(n, ast.Name)} & params
+                visit(st.body, guards | g)
+                visit(st.orelse, guards | g)
+    visit(init.node.body, set())
+    props = {m for m, fi in ci.methods.items() if any('property' in d or 'setter' in d for d in fi.decorators)}
+    out = []
+    for a, ps in derived.items():
+        srcs = [attr for attr, p in stored.items() if p in ps and attr not in props and attr != a]
+        if not srcs:
+            continue
+        for mname, fi in ci.methods.items():
+            if mname == '__init__':
+                continue
+            reads = {}
+            for n in walk_no_nested(fi.node):
+                if isinstance(n, ast.Attribute) and isinstance(n.value, ast.Name) and n.value.id == 'self' and isinstance(n.ctx, ast.Load):
+                    reads.setdefault(n.attr, n)
+            if a in reads:
+                for sattr in srcs:
+                    if sattr in reads:          # the method mixes the LIVE attribute with the value derived from it at construction
+                        out.append((fi, a, sattr, reads[a]))
+    return out
+
+
+def argument_role_swaps(db, module_names):
+    """Call sites that pass a value NAMED like one parameter of the callee into the slot of ANOTHER parameter of the same
+    callee (`Wavefront(data, self.dx, self.wavelength)` for `__init__(self, cmplx_field, wavelength, dx, ...)`).
+    Only plain names / `self.<attr>` arguments are considered, and only when both parameter names exist in the callee.
+    Returns [(caller fi, call node, slot param, argument text)]."""
+    out = []
+    by_name = {}
+    for mn, mod in db.modules.items():
+        for f in mod.functions.values():
+            by_name.setdefault(f.name, []).append(f)
+        for c in mod.classes.values():
+            init = c.methods.get('__init__')
+            if init is not None:
+                by_name.setdefault(c.name, []).append(init)
+            for m in c.methods.values():
+                by_name.setdefault(m.name, []).append(m)
+    for mn in module_names:
+        mod = db.module(mn)
+        fns = list(mod.functions.values()) + [m for c in mod.classes.values() for m in c.methods.values()]
+        for fi in fns:
+            for c in walk_no_nested(fi.node):
+                if not isinstance(c, ast.Call):
+                    continue
+                cname = c.func.attr if isinstance(c.func, ast.Attribute) else (c.func.id if isinstance(c.func, ast.Name) else None)
+                cands = by_name.get(cname, [])
+                if len(cands) != 1:
+                    continue
+                callee = cands[0]
+                params = list(callee.params)
+                if params and params[0] in ('self', 'cls'):
+                    params = params[1:]
+                if isinstance(c.func, ast.Attribute) and callee.cls is None and False:
+                    continue
+                bound = {}
+                if any(isinstance(a, ast.Starred) for a in c.args):
+                    continue
+                for p_, a in zip(params, c.args):
+                    bound[p_] = a
+                for k in c.keywords:
+                    if k.arg:
+                        bound[k.arg] = k.value
+                for slot, a in bound.items():
+                    nm = a.id if isinstance(a, ast.Name) else (a.attr if isinstance(a, ast.Attribute) and isinstance(a.value, ast.Name) and a.value.id == 'self' else None)
+                    if nm is None or nm == slot or nm not in params:
+                        continue
+                    # the value is named like another parameter of the callee: a swap if that other slot does not get it too
+                    other = bound.get(nm)
+                    onm = other.id if isinstance(other, ast.Name) else (other.attr if isinstance(other, ast.Attribute) else None)
+                    if onm == nm:
+                        continue
+                    out.append((fi, c, slot, ast.unparse(a)))
+    return out
+
+
+def memo_entry_writes(ci):
+    """Methods that write in place into an entry of one of the class's dict memos after taking it out
+    (`work = self.cache[k] ... work[:m, :n] = data`): the entry keeps what earlier calls left in it.
+    Returns [(method fi, stmt, written name, entry text)]."""
+    memos = set()
+    for m_ in ci.methods.values():
+        for n_ in walk_no_nested(m_.node):
+            if isinstance(n_, ast.Assign) and _is_empty_dict(n_.value):
+                for t_ in n_.targets:
+                    if isinstance(t_, ast.Attribute) and isinstance(t_.value, ast.Name) and t_.value.id == 'self':
+                        memos.add('self.' + t_.attr)
+    out = []
+    if not memos:
+        return out
+    for fi in ci.methods.values():
+        for st, nm, r in shared_entry_mutations(fi, tables=False, attr_tables=memos):
+            if nm.startswith('self.'):
+                continue          # `self.memo[k] = v` is the fill itself
+            out.append((fi, st, nm, r))
     return out
